@@ -467,15 +467,26 @@ def apply_order_rules(node, items, opts):
             p = vocab.prop("symbol", "name")
             items.insert(0, Item("attr", "name", shape="string", toks=[str_tok("sym")], value="sym"))
     if "first-keyword-value-is-block-word" in opts.gated and node.type == "outputformat" and items:
-        it = items[0]
-        if it.key == "imagemode" and it.toks and it.toks[0].text.upper() == "FEATURE":
-            items.append(items.pop(0))
-            if len(items) == 1:
-                items.insert(0, Item("attr", "name", shape="string", toks=[str_tok("of")], value="of"))
+        feat = any(it.key == "imagemode" and it.toks and it.toks[0].text.upper() == "FEATURE" for it in items)
+        if feat and items[0].key == "imagemode":
+            # the (deduplicated) first keyword must not be IMAGEMODE FEATURE, in the source and in re-printed text
+            items.insert(0, Item("attr", "name", shape="string", toks=[str_tok("of")], value="of"))
+            for it in items[1:]:
+                if it.key == "name":
+                    items.remove(it)
+                    break
     if "querymap-style-keyword" in opts.gated and node.type == "querymap":
         styles = [it for it in items if it.key == "style"]
         if styles:
             items[:] = [it for it in items if it.key != "style"] + [styles[-1]]
+
+
+def apply_gates(root, gated):
+    """Apply the feature gates of listed known findings to every object of a (hand-built) tree."""
+    opts = GenOpts(gated=set(gated))
+    for n in root.walk():
+        apply_order_rules(n, n.items, opts)
+    return root
 
 
 def gen_document(r, opts=None, root=None):
